@@ -377,17 +377,19 @@ const (
 )
 
 type c20HistViol struct {
-	Kind     string       `json:"kind"`
-	Case     *c20HistCase `json:"case"`
-	Step     int          `json:"step"`
-	Src      int          `json:"src"`
-	Win      int          `json:"win"`
-	Thr      int          `json:"thr"`
-	Residual bool         `json:"residual_after_unban"`
-	Rules    bool         `json:"rules_present"`
-	ExcKind  string       `json:"exception_kind,omitempty"`
-	Panic    string       `json:"panic,omitempty"`
-	Harness  string       `json:"harness"`
+	Kind         string       `json:"kind"`
+	Case         *c20HistCase `json:"case"`
+	Step         int          `json:"step"`
+	Src          int          `json:"src"`
+	Win          int          `json:"win"`
+	Thr          int          `json:"thr"`
+	Residual     bool         `json:"residual_after_unban"`
+	Rules        bool         `json:"rules_present"`
+	ExcKind      string       `json:"exception_kind,omitempty"`
+	Panic        string       `json:"panic,omitempty"`
+	Harness      string       `json:"harness"`
+	AfterSilence bool         `json:"after_silence,omitempty"`
+	PauseMs      int64        `json:"pause_ms,omitempty"`
 }
 
 type c20HistStats struct {
@@ -418,13 +420,9 @@ func c20Content(kind, step int) string {
 	return c20Contents[kind]
 }
 
-func c20RunHistGroup(id int, cases []*c20HistCase, st *c20HistStats) {
-	c0 := cases[0]
-	unit := time.Hour // one abstract time unit; the pipeline's own maintenance ticker never fires during the run
-	s := &Settings{
-		Decoder:  "cri",
-		Antispam: AntispamSettings{Threshold: c0.T, MaintenanceInterval: time.Duration(c0.I) * unit},
-	}
+// the exception and rule lists of the specification's configurations ("exc" / "rules")
+func c20AntispamLists(as *AntispamSettings, c0 *c20HistCase) {
+	s := &Settings{}
 	exc := antispam.Exceptions{
 		{RuleSet: matchrule.RuleSet{
 			Name:  "c20exc",
@@ -458,6 +456,18 @@ func c20RunHistGroup(id int, cases []*c20HistCase, st *c20HistStats) {
 			{Name: "c20s2", Threshold: c0.T2, DoIfChecker: s2},
 		}
 	}
+	as.Exceptions = s.Antispam.Exceptions
+	as.Rules = s.Antispam.Rules
+}
+
+func c20RunHistGroup(id int, cases []*c20HistCase, st *c20HistStats) {
+	c0 := cases[0]
+	unit := time.Hour // one abstract time unit; the pipeline's own maintenance ticker never fires during the run
+	s := &Settings{
+		Decoder:  "cri",
+		Antispam: AntispamSettings{Threshold: c0.T, MaintenanceInterval: time.Duration(c0.I) * unit},
+	}
+	c20AntispamLists(&s.Antispam, c0)
 	p, _, out := c20NewPipeline(fmt.Sprintf("c20hist%d", id), s)
 	p.Start()
 	defer p.Stop()
@@ -544,6 +554,156 @@ func c20RunHistGroup(id int, cases []*c20HistCase, st *c20HistStats) {
 	st.mu.Unlock()
 }
 
+// ---------------------------------------------------------------- pipeline-scheduled maintenance
+//
+// Histories of the shape  arrivals* , K >= unban+1 maintenance rounds , arrivals+  on a RUNNING pipeline whose
+// own antispammerMaintenance goroutine does the maintenance (interval c20SchedInterval): all bursts, one pause
+// of 10 x K intervals + 300 ms, all second bursts.  Only admissions are asserted: a record the statement says
+// cannot be refused (exp = 0) must be admitted -- in particular the first records of a source after the pause,
+// however it was banned before.  Extra maintenance rounds falling into a burst only shrink the counting
+// windows, so they cannot turn such an expectation wrong.  Nothing is ever required to be still banned.
+
+const c20SchedInterval = 20 * time.Millisecond
+
+type c20SchedStats struct {
+	mu                                       sync.Mutex
+	executed, steps, sawBan, bannedThenAdmit int
+	groups                                   int
+	viols                                    map[string][]*c20HistViol
+	counts                                   map[string]int
+}
+
+func (st *c20SchedStats) add(v *c20HistViol) {
+	k := fmt.Sprintf("%s/%v/%v/%s", v.Kind, v.Residual, v.Rules, v.ExcKind)
+	st.mu.Lock()
+	st.counts[k]++
+	if len(st.viols[k]) < 8 {
+		st.viols[k] = append(st.viols[k], v)
+	}
+	st.mu.Unlock()
+}
+
+func c20RunSchedGroup(id int, cases []*c20HistCase, st *c20SchedStats) {
+	c0 := cases[0]
+	s := &Settings{
+		Decoder:  "raw",
+		Antispam: AntispamSettings{Threshold: c0.T, MaintenanceInterval: c20SchedInterval},
+	}
+	c20AntispamLists(&s.Antispam, c0)
+	p, _, out := c20NewPipeline(fmt.Sprintf("c20sched%d", id), s)
+	p.Start()
+	defer p.Stop()
+	accepted := int64(0)
+	maxK := 0
+	type progress struct {
+		next   int          // first step after the maintenance block
+		banned map[int]bool // sources that were refused in the first burst
+	}
+	prog := make([]progress, len(cases))
+	var pause time.Duration
+	send := func(ci int, c *c20HistCase, i int, afterSilence bool) {
+		sp := c.Steps[i]
+		x := sp[c20Src]
+		line := c20Content(sp[c20Kind], i) + "\n"
+		seq := p.In(SourceID(uint64(ci)*8+uint64(x)), fmt.Sprintf("src%d", x), Offsets{current: int64(i + 1)}, []byte(line), sp[c20Kind] == 3, nil)
+		refused := seq == EventSeqIDError
+		if !refused {
+			accepted++
+		}
+		st.mu.Lock()
+		st.steps++
+		st.mu.Unlock()
+		if !afterSilence {
+			if refused {
+				prog[ci].banned[x] = true
+			}
+		} else if prog[ci].banned[x] {
+			prog[ci].banned[x] = false
+			if !refused {
+				st.mu.Lock()
+				st.bannedThenAdmit++
+				st.mu.Unlock()
+			}
+		}
+		if !refused || sp[c20Exp] != 0 {
+			return
+		}
+		v := &c20HistViol{Case: c, Step: i, Src: x, Win: sp[c20Win], Thr: sp[c20Thr], Rules: c.Mode == "rules",
+			Harness: "pipeline-scheduled", AfterSilence: afterSilence, PauseMs: pause.Milliseconds()}
+		switch sp[c20Why] {
+		case 1:
+			v.Kind = "dropped_while_disabled"
+		case 2:
+			v.Kind, v.ExcKind = "exception_dropped", "exception"
+		case 3:
+			v.Kind, v.ExcKind = "exception_dropped", "unlimited_rule"
+		default:
+			v.Kind = "spam_from_unbannable_source"
+			if afterSilence {
+				v.Kind = "not_unbanned"
+			}
+		}
+		st.add(v)
+	}
+	phase := func(after bool) {
+		for ci, c := range cases {
+			func() {
+				defer func() {
+					if r := recover(); r != nil {
+						st.add(&c20HistViol{Kind: "panic", Case: c, Panic: fmt.Sprint(r), Harness: "pipeline-scheduled"})
+					}
+				}()
+				if !after {
+					prog[ci].banned = map[int]bool{}
+					i, k := 0, 0
+					for ; i < len(c.Steps) && c.Steps[i][c20Op] == 0; i++ {
+						send(ci, c, i, false)
+					}
+					for ; i < len(c.Steps) && c.Steps[i][c20Op] == 1; i++ {
+						k++
+					}
+					prog[ci].next = i
+					if k > maxK {
+						maxK = k
+					}
+					for _, b := range prog[ci].banned {
+						if b {
+							st.mu.Lock()
+							st.sawBan++
+							st.mu.Unlock()
+						}
+					}
+					return
+				}
+				for i := prog[ci].next; i < len(c.Steps); i++ {
+					if c.Steps[i][c20Op] == 1 {
+						panic("history is not of the burst / pause / burst shape")
+					}
+					send(ci, c, i, true)
+				}
+				st.mu.Lock()
+				st.executed++
+				st.mu.Unlock()
+			}()
+		}
+	}
+	phase(false)
+	pause = time.Duration(10*maxK)*c20SchedInterval + 300*time.Millisecond
+	time.Sleep(pause)
+	phase(true)
+	deadline := time.Now().Add(30 * time.Second)
+	for out.count.Load() < accepted && time.Now().Before(deadline) {
+		time.Sleep(time.Millisecond)
+	}
+	if out.count.Load() != accepted {
+		st.add(&c20HistViol{Kind: "not_delivered", Case: c0, Harness: "pipeline-scheduled",
+			Panic: fmt.Sprintf("accepted %d, delivered %d", accepted, out.count.Load())})
+	}
+	st.mu.Lock()
+	st.groups++
+	st.mu.Unlock()
+}
+
 // ---------------------------------------------------------------- driver
 
 func TestVerifC20(t *testing.T) {
@@ -561,6 +721,8 @@ func TestVerifC20(t *testing.T) {
 	var sizeOrder []c20SizeCfg
 	histGroups := map[string][]*c20HistCase{}
 	var histOrder []string
+	schedGroups := map[string][]*c20HistCase{}
+	var schedOrder []string
 	sc := bufio.NewScanner(f)
 	sc.Buffer(make([]byte, 1<<20), 1<<24)
 	for sc.Scan() {
@@ -591,6 +753,13 @@ func TestVerifC20(t *testing.T) {
 				t.Fatalf("bad history case: %v", err)
 			}
 			k := fmt.Sprintf("%d/%d/%s", c.T, c.T2, c.Mode)
+			if head.Part == "sched" {
+				if _, ok := schedGroups[k]; !ok {
+					schedOrder = append(schedOrder, k)
+				}
+				schedGroups[k] = append(schedGroups[k], c)
+				continue
+			}
 			if _, ok := histGroups[k]; !ok {
 				histOrder = append(histOrder, k)
 			}
@@ -602,6 +771,16 @@ func TestVerifC20(t *testing.T) {
 	sem := make(chan struct{}, 8)
 	var wg sync.WaitGroup
 	id := 0
+	// the timed family first, each configuration on its own running pipeline (they mostly sleep)
+	cst := &c20SchedStats{viols: map[string][]*c20HistViol{}, counts: map[string]int{}}
+	for _, k := range schedOrder {
+		id++
+		wg.Add(1)
+		go func(id int, cs []*c20HistCase) {
+			defer wg.Done()
+			c20RunSchedGroup(id, cs, cst)
+		}(id, schedGroups[k])
+	}
 	for _, g := range sizeOrder {
 		id++
 		wg.Add(1)
@@ -636,7 +815,13 @@ func TestVerifC20(t *testing.T) {
 	for _, vs := range hst.viols {
 		hv = append(hv, vs...)
 	}
+	var cv []*c20HistViol
+	for _, vs := range cst.viols {
+		cv = append(cv, vs...)
+	}
 	res := map[string]interface{}{
+		"sched": map[string]interface{}{"executed": cst.executed, "steps": cst.steps, "pipelines": cst.groups, "banned_in_first_burst": cst.sawBan,
+			"banned_then_admitted": cst.bannedThenAdmit, "interval_ms": c20SchedInterval.Milliseconds(), "violations": cv, "violation_counts": cst.counts},
 		"size": map[string]interface{}{"executed": sst.executed, "delivered": sst.delivered, "refused": sst.refused,
 			"cut_delivered": sst.cutDelivered, "kept_at_limit": sst.keptBoundary, "pipelines": len(sizeOrder), "violations": sst.viols},
 		"hist": map[string]interface{}{"executed": hst.executed, "steps": hst.steps, "spam": hst.spam, "accepted": hst.accepted,
